@@ -7,6 +7,7 @@ use std::ops::Bound;
 use super::*;
 use crate::catalog::ColumnRefId;
 use crate::storage::KeyRange;
+use crate::types::{DataType, DataValue};
 
 /// The data type of range analysis.
 ///
@@ -103,11 +104,25 @@ pub fn filter_scan_rule() -> Vec<Rewrite> { vec![
 fn is_primary_key_range(expr: &str) -> impl Fn(&mut EGraph, Id, &Subst) -> bool {
     let var = var(expr);
     move |egraph, _, subst| {
-        let Some((column, _)) = &egraph[subst[var]].data.range else {
+        let Some((column, range)) = &egraph[subst[var]].data.range else {
             return false;
         };
+        // The storage evaluates a key range on the first column of the table and can only seek
+        // on INT keys (`DiskRowset::start_rowid`, `RowSetIterator`). Any other range must stay
+        // in a filter above the scan.
+        let is_int = |bound: &Bound<DataValue>| {
+            matches!(
+                bound,
+                Bound::Unbounded
+                    | Bound::Included(DataValue::Int32(_))
+                    | Bound::Excluded(DataValue::Int32(_))
+            )
+        };
+        if column.column_id != 0 || !is_int(&range.start) || !is_int(&range.end) {
+            return false;
+        }
         if let Some(col) = egraph.analysis.catalog.get_column(column) {
-            col.is_primary()
+            col.is_primary() && col.data_type() == DataType::Int32
         } else {
             // handle the case that catalog is not initialized, like in test cases
             false
